@@ -260,7 +260,9 @@ Definition set_extension (h : header) (id : Z) (v : list Z) : header * option er
         if id <? 1 then Some EIdRange
         else if 255 <? zlen v then Some ESize else None
       else
-        if negb (id =? 0) then Some EIdRange else None in
+        if negb (id =? 0) then Some EIdRange
+        else if 262140 <? zlen v then Some ESize   (* 65535 words: what the 16-bit length field can count (D32) *)
+        else None in
     match bad with
     | Some e => (h, Some e)
     | None =>
@@ -289,10 +291,12 @@ Definition get_extension (h : header) (id : Z) : option (list Z) :=
        | None => None
        end.
 
+(* DelExtension: from the first element with the id on, no element with that id stays (a header that
+   came off the wire can name an id more than once; D33) *)
 Fixpoint del_first (id : Z) (es : list ext) : option (list ext) :=
   match es with
   | [] => None
-  | e :: t => if eid e =? id then Some t
+  | e :: t => if eid e =? id then Some (filter (fun x => negb (eid x =? id)) t)
               else match del_first id t with Some t' => Some (e :: t') | None => None end
   end.
 
